@@ -16,12 +16,18 @@ CHECKS = {
  "C02": ("guarded-return rules on enumerated SSA paths of the record parser and predicates; compiler prove-pass residue (bounds checks) against a hand-discharged table; KDF panic preconditions read from the dependency's SSA",
          "Decides: every parse failure leaves with an error and zero values, fields are taken from the right positions, supported/valid/true only behind the full guard chain, no unproven bounds check and no nil method call on the parse path, KDF panic preconditions excluded at construction (found and repaired: argon2id parameters), schema rules for unsupported hashes in List/ListFull/Exists/Remove, URL-safe base64 everywhere.",
          "Not decided: 'never a hang', the verdict per byte string, strconv/base64 internals."),
+ "C20": ("path-sensitive rules over clang's source-level CFG of pam_whawty.c (all acyclic paths, last-assignment tracking, branch facts), plus declaration/constant agreement with the Go codec",
+         "Decides from the C source: PAM_SUCCESS only through check_password's single success path (open==0 ∧ send==0 ∧ recv==0 ∧ strncmp(\"OK\",response,2)==0 on a zeroed 257-byte buffer); helpers succeed only after exact transfers; reads clipped to 256; request = user, password, \"\", \"\" as htons(min(strlen,256))+bytes with the same limit as the Go codec; select() with positive timeout before every read/write and timeout leaves; cleanup on every exit wipes before freeing.",
+         "Not decided: run-time behaviour of the compiled module, wall-clock bounds, sanitizer-level memory safety; stub PAM headers are trusted."),
  "C03": ("interprocedural path-sensitive guard analysis (SSA) + path-shape grammar + call-graph reachability",
          "Decides structural necessary conditions, not the behaviour: every Join(BaseDir,U) on a caller-supplied name is dominated, along all call paths from the exported API, by the grammar match; every FS primitive in package store takes a path of a confined shape; Check/List count only valid names; no FS/exec primitive reachable from request handlers by call edges. Holds for all CFG paths and call sites at once, which the input-sampling tests cannot give.",
          "Not decided: kernel path resolution (symlinks inside the base dir), NAME_MAX, the syscall-level view."),
  "C04": ("identity-flow (provenance) per link across frontends, request channel hop and dispatcher select case; guarded-output rules on enumerated SSA paths; call-graph funnel",
          "Decides that every frontend hands exactly its decoded credentials, unchanged and in position, down to UserHash.Authenticate, and emits a success output only under the store's ok (∧ err==nil); plus the library invariant ok ⇒ err==nil and the single-funnel who-may-call rule. A regression that trims, truncates, swaps or case-folds a credential, or inverts/ignores the verdict in any of the five frontends, breaks one of these links.",
          "Not decided: decoding inside net/http, encoding/json, the BER library, urfave/cli; transport limits; store-state dependence (C01)."),
+ "C05": ("exactly-once / ordering rules and guarded-store rule on all SSA paths of the connection handler; string-length bound analysis; writer/reader vocabulary agreement; who-may-write",
+         "Decides on every path of handleConnection: callback at most once and only after a complete decode, exactly one reply on the connection, deferred close, Result false unless callback ok ∧ err==nil; the reply part is bounded by the limit every decoder enforces (found and repaired); Encode/Decode agree on OK/NO/message; one goroutine per accepted connection and no shared writes.",
+         "Not decided: fragmentation/timing behaviour of bufio.Scanner and sockets, real concurrency, the compiled PAM module (source: C20)."),
  "C06": ("path-sensitive guarded-call analysis with disjunctive gates on enumerated SSA paths of every registered handler; who-may-call",
          "Decides the authorisation guard structure of the web API on all CFG paths of all 8 registered handlers: admin gate, three-alternative update gate with ambiguity refusal, issuance only after authentication, success responses only under gate ∧ err==nil, non-empty fields, and that store mutators have no caller outside gated handlers and CLI actions.",
          "Not decided: sessions.Check itself (C07), JSON decoding ambiguities, closure under request sequences."),
@@ -43,6 +49,9 @@ CHECKS = {
  "C12": ("operand-identity and guarded-send rules on enumerated SSA paths; constructor mode-switch table; shared C11.3 rule",
          "Decides: upgradeable == (Default != record's parameter-set id); enqueue only under ok ∧ upgradeable ∧ queue configured, with the login's credentials; mode switch \"\"→nil / local→update queue / URL→remote upgrader; writes use hasher and id of the same Default and go through the ordinary (policy-checked) update; rewrite only for a password valid at rewrite time.",
          "Not decided: liveness of the rewrite, the remote master."),
+ "C13": ("shape rules on enumerated SSA paths of encoder, split function and decoder; interval pins on the field-limit predicates; writer/reader agreement",
+         "Decides the framing structure: 2+len buffer with BigEndian length of the same part, split function's token/advance/need-more-data/limit cases, exact 2-byte strip, per-field limits pinned to exactly >256, empty login/password refused, response grammar and bounded reply. Go↔C agreement is decided by C20.",
+         "Not decided: value-level round trip for every byte string, re-encode==consumed bytes, fragmentation independence (bufio.Scanner executions)."),
  "C14": ("writer/reader table agreement (string templates, positions, YAML tags), freshness/CSPRNG provenance of salts, operand identity of KDF parameters incl. the dependency's Hash construction, backward containment check for secrets",
          "Decides: record line template and operands, hasher string order vs decoder order, schema identifiers, fresh random salts of the schema's sizes used by the KDF and written, KDF operands are the same-named configuration fields without conversion, YAML keys map to those fields, HMAC-SHA256 over scrypt(N=1<<cost,r,p,32) in the dependency, URL-safe base64, and that the password reaches files only through the KDF and never the HMAC key.",
          "Not decided: digest equality with an independent implementation, salt uniqueness probability."),
